@@ -509,6 +509,9 @@ func skipType(p unsafe.Pointer, e uintptr, t TType, maxdepth int) (int, error) {
 			}
 			i += vi
 		}
+		if uintptr(p)+uintptr(i) > e {
+			return 0, errBufferTooShort
+		}
 		return i, nil
 	case LIST, SET:
 		if uintptr(p)+uintptr(5) > e {
